@@ -265,6 +265,57 @@ def directed_recipes(target, alt, dct):
     return R
 
 
+EXPAND_UNARY = ["square", "log2", "log10", "log1p", "asin", "acos", "asinh", "acosh", "atan", "atanh", "absolute", "sqrt", "exp", "log"]
+EXPAND_BINARY = ["hypot"]
+
+
+def expansion_recipes(target, alt, dct):
+    """Graphs that go through the TARGET REWRITE (`graph.rewrite(target, rewrite)`): every kind the target does not
+    implement natively is replaced by the shipped algorithm through `Context.call`, which names the values of each
+    expansion.  n = 1..4 expansions of the same kind on distinct arguments, nested expansions, mixtures, and user
+    references that use the algorithms' own local names."""
+    T = ARGTYPES[target]
+    R = []
+    letters = ["a", "b", "c", "d", "e", "f", "g", "h"]
+
+    def rec(name, args, steps, body):
+        R.append(dict(mode="recipe", id=f"expand:{name}", target=target, alt=bool(alt), dct=dct, fname="f", args=args, steps=steps,
+                      body=body, props={}, malformed=False, must_use=None, rewrite=True))
+
+    for cls in ("R", "C"):
+        ty = T[cls][0]
+        for k in EXPAND_UNARY:
+            if cls == "R" and k == "absolute":
+                continue
+            for n in (1, 2, 3, 4):
+                args = [[letters[i], ty] for i in range(n)]
+                steps = [["op", k, [i]] for i in range(n)]
+                acc = n
+                for i in range(1, n):
+                    steps.append(["op", "add" if i % 2 else "subtract", [acc, n + i]])
+                    acc = len(args) + len(steps) - 1
+                rec(f"{k}:{cls}:x{n}", args, steps, acc)
+        # nested and mixed
+        rec(f"square-of-square:{cls}", [["a", ty]], [["op", "square", [0]], ["op", "square", [1]], ["op", "square", [2]]], 3)
+        rec(f"mixed:{cls}", [["a", ty], ["b", ty], ["c", ty]],
+            [["op", "square", [0]], ["op", "log2", [1]], ["op", "square", [2]], ["op", "add", [3, 4]], ["op", "multiply", [6, 5]], ["op", "square", [7]]], 8)
+    ty = T["R"][0]
+    for n in (1, 2, 3, 4):
+        args = [[letters[i], ty] for i in range(2 * n)]
+        steps = [["op", "hypot", [2 * i, 2 * i + 1]] for i in range(n)]
+        acc = 2 * n
+        for i in range(1, n):
+            steps.append(["op", "subtract", [acc, 2 * n + i]])
+            acc = len(args) + len(steps) - 1
+        rec(f"hypot:x{n}", args, steps, acc)
+    rec("hypot-nested", [["a", ty], ["b", ty], ["c", ty], ["d", ty]],
+        [["op", "hypot", [0, 1]], ["op", "hypot", [4, 2]], ["op", "hypot", [5, 3]]], 6)
+    # user names equal to the algorithms' locals (mx, mn, r, sq ...)
+    rec("hypot-user-names", [["mx", ty], ["mn", ty], ["r", ty], ["sq", ty]],
+        [["op", "hypot", [0, 1]], ["op", "hypot", [2, 3]], ["op", "add", [4, 5]], ["ref", 6, "h1", True]], 6)
+    return R
+
+
 def probe_recipes(target, kinds, alt, dct):
     """One minimal graph per declared kind: tells which kinds the target can print at all."""
     T = ARGTYPES[target]
